@@ -103,6 +103,8 @@ def one_trace(tid, n, L, plus, rng, iters, root: Path, integer_terminals: bool, 
                 pc, pn = q(pre_cur[nid])
                 ev["nodes"].append({"id": int(nid), "cur": cur, "cur_nan": cn, "avg": avg, "avg_nan": an, "reg": reg, "dreg": dreg,
                                     "pre_cur": pc, "has_pre": int(pn == 0)})
+            if not (np.array_equal(np.array(rm.cumulative_regret, dtype=np.float64), reg_now, equal_nan=True)):
+                ev["saveload"] = 0                           # reading strategies changed the regrets: reported with the continuation clause
             prev_reg = reg_now
         except Exception as ex:  # noqa: BLE001
             ev["exc"] = type(ex).__name__
